@@ -543,7 +543,7 @@ func (r *renderer) stmt(indent int, s Stmt) {
 		}
 		for i := range v.Methods {
 			m := &v.Methods[i]
-			r.add(indent+1, nil, kw("如何"), r.nameTok(m.Name), r.punct("？"))
+			r.add(indent+1, m, kw("如何"), r.nameTok(m.Name), r.punct("？"))
 			r.funcBody(indent+2, m.Params, m.Body, m.Catches)
 		}
 		for i := range v.Getters {
